@@ -4,6 +4,7 @@ var SetMixin *Mixin // ::Std::Set
 
 func initSet() {
 	SetMixin = NewMixin()
+	SetMixin.IncludeMixin(CollectionBaseMixin)
 	StdModule.AddConstantString("Set", Ref(SetMixin))
 	RegisterNativeMixin("Std::Set", "value.SetMixin")
 }
